@@ -7,10 +7,13 @@ from facts import AnalysisBroken
 def depend(ctx, P, pid, rule, what, why, select=None):
     """Evaluate property `pid`'s rules in a sub-context and report the first failing obligation accepted by `select(ob)` under `rule`."""
     import check as _chk
+    if getattr(ctx, "nested", False):
+        return          # evaluated as somebody's dependency: that property's own dependencies are reported where it is checked itself
     mod = importlib.import_module("props." + pid.lower())
     sub = _chk.Ctx(pid, ctx.tier, ctx.seed)
     sub._progs = ctx._progs
     sub.config = ctx.config
+    sub.nested = True
     broken = None
     try:
         mod.run(sub)
